@@ -134,6 +134,10 @@ FAMILY = [
     Struct("SDeferred", [F("a", "u8"), F("b", "u8"), F("flag", "bool"), F("k", "EUnit")], tags=["novec"]),
     Struct("SDeferred2", [F("a", "bool"), F("b", "bool"), F("c", "u8"), F("d", "u8"), F("e", "bool"), F("f", "bool"),
                           F("g", "u8"), F("h", "u8"), F("k", "EUnit")], tags=["novec"]),
+    # a non-packed first field, then a run of same-alignment primitives that rustc reorders in the MIDDLE only
+    # (niche-carrying bool/char ahead of u8/u32) while the first and last field of the run stay in place
+    Struct("SDeferred3", [F("o", "Option<u8>"), F("a", "bool"), F("b", "u8"), F("c", "bool"), F("d", "u8")], tags=["novec"]),
+    Struct("SDeferred4", [F("o", "Option<u8>"), F("first", "char"), F("count", "u32"), F("last", "char"), F("total", "u32")], tags=["novec"]),
     Enum("EDir", [V("Up", disc=1), V("Down", disc=0)]),
     Enum("EOnly", [V("Only")]),
     Struct("SWithOnly", [F("tag", "EOnly"), F("value", "u8")], repr="C"),
@@ -514,6 +518,11 @@ def main():
                 if i < j:
                     xnat.append('        // n(nevo_%s_%s, "C03,C05", "savefile::save; savefile::save_compressed; savefile::load; Deserializer::load_impl (schema gate at the file version, plain and bzip2 branches); derive Deserialize for %s reading version-%d data", "small-scope values of %s; plain and compressed container with schema");' % (o.name, nw.name, nw.name, o.version, o.name))
                     xnat.append('        ("nevo_%s_%s", (|s: &mut crate::src::EnumSrc| crate::native_crypto::evolve_container::<crate::family_gen::%s, crate::family_gen::%s, _>(s)) as fn(&mut crate::src::EnumSrc)),' % (o.name, nw.name, o.name, nw.name))
+    for t in FAMILY:
+        if t.name in ("SWithEnum", "SUpperBound") or "big" in t.tags:
+            continue   # the two known findings have their own (Kani) obligations; 256/257-variant enums are Kani's
+        nat.append('        // n(nfam_rt_%s, "C01,C02", "derive(Savefile) output for %s: Serialize::serialize; Deserialize::deserialize", "small-scope values of %s (bounded fallback for the Kani harness fam_rt_%s)");' % (t.name, t.name, t.name, t.name))
+        nat.append('        ("nfam_rt_%s", (|s: &mut crate::src::EnumSrc| crate::family::roundtrip::<crate::family_gen::%s, _>(s)) as fn(&mut crate::src::EnumSrc)),' % (t.name, t.name))
     for n in ["SVerOrder", "SAbiRem", "SMidRange"]:
         nat.append('        // n(nschema_versions_%s, "C12", "derive WithSchema for %s at every version <= current; savefile::get_schema; derive Serialize writing older versions", "small-scope values of %s, every version 0..=current");' % (n, n, n))
         nat.append('        ("nschema_versions_%s", (|s: &mut crate::src::EnumSrc| crate::schemaread::schema_faithful_versions::<crate::family_gen::%s, _>(s)) as fn(&mut crate::src::EnumSrc)),' % (n, n))
